@@ -1,5 +1,5 @@
 import DhcpProofs.Lemmas.V6NoPanic
-import DhcpProofs.Lemmas.V6Fuel
+import DhcpProofs.Lemmas.V6Termination
 import DhcpProofs.Lemmas.V4Opts
 import DhcpProofs.Props.C06
 import DhcpProofs.Props.C18
